@@ -1,0 +1,185 @@
+//! Coverage probes and loop counters for external runtime monitors.
+//!
+//! Only compiled with `--cfg recmo_uint_verif`; never part of a normal build.
+//! Probes are thread-local counters, so they are race free without atomics and
+//! can be attributed to a single monitored call by taking a snapshot before
+//! and after it.
+
+#![allow(missing_docs, clippy::missing_inline_in_public_items)]
+
+macro_rules! probes {
+    ($($name:ident),* $(,)?) => {
+        probes!(@step 0usize; $($name,)*);
+        /// Names of all probes, indexed by probe id.
+        pub const NAMES: &[&str] = &[$(stringify!($name)),*];
+    };
+    (@step $idx:expr; $head:ident, $($tail:ident,)*) => {
+        pub const $head: usize = $idx;
+        probes!(@step $idx + 1usize; $($tail,)*);
+    };
+    (@step $idx:expr;) => {
+        /// Number of probes.
+        pub const N: usize = $idx;
+    };
+}
+
+probes! {
+    // algorithms/div/mod.rs dispatch
+    DIV_NUM_ZERO, DIV_NUM_SHORT, DIV_1X1, DIV_NX1, DIV_NX2, DIV_NXM,
+    // algorithms/div/knuth.rs
+    KNUTHN_FORCED, KNUTHN_ADDBACK, KNUTHN_STEP,
+    KNUTH_FORCED, KNUTH_QZERO, KNUTH_ADDBACK_NOSHIFT, KNUTH_ADDBACK_SHIFT,
+    KNUTH_STEP_NOSHIFT, KNUTH_STEP_SHIFT, KNUTH_QHIGH_NONZERO,
+    // algorithms/div/small.rs
+    NX1_NORMALIZED, NX1_SHIFT, NX2_NORMALIZED, NX2_SHIFT,
+    D2X1_CALL, D2X1_ADJ1, D2X1_ADJ2, D3X2_CALL, D3X2_ADJ1, D3X2_ADJ2,
+    // algorithms/div/reciprocal.rs
+    RECIP2_CALL, RECIP2_C1, RECIP2_C2, RECIP2_C3, RECIP2_C4,
+    // algorithms/mul.rs addmul
+    ADDMUL_CALL, ADDMUL_TRIM_A_LO, ADDMUL_TRIM_A_HI, ADDMUL_TRIM_B_LO, ADDMUL_TRIM_B_HI,
+    ADDMUL_RET_EMPTY_OPERAND, ADDMUL_RET_EMPTY_LHS, ADDMUL_SWAP, ADDMUL_FULL_ROW,
+    ADDMUL_ROW_CARRY_OUT, ADDMUL_SHORT_WINDOW, ADDMUL_LHS_EXHAUSTED,
+    // algorithms/mul_redc.rs
+    REDC_MUL_CALL, REDC_MUL_CARRY_TRACKED, REDC_MUL_CARRY_IGNORED, REDC_MUL_CARRY_SET,
+    REDC_SQ_CALL, REDC_SQ_WIDE, REDC_SQ_NARROW, REDC_SQ_OUTER_0, REDC_SQ_OUTER_1, REDC_SQ_OUTER_2,
+    REDC_SQ_CARRY_HI,
+    REDC_REDUCE_SUB_CARRY, REDC_REDUCE_SUB_NOBORROW, REDC_REDUCE_KEEP,
+    // algorithms/gcd/matrix.rs
+    LEHMER_FROM_LE64, LEHMER_FROM_LE128, LEHMER_FROM_GT128,
+    PREFIX_RET_A1_SMALL, PREFIX_RET_A2_SMALL_OK, PREFIX_RET_A2_SMALL_ID,
+    PREFIX_RET_EVEN_I2, PREFIX_RET_EVEN_I1, PREFIX_RET_EVEN_I0,
+    PREFIX_RET_ODD_I2, PREFIX_RET_ODD_I1, PREFIX_RET_ODD_I0,
+    // algorithms/gcd/mod.rs
+    GCD_LEHMER_STEP, GCD_EUCLID_STEP, GCDX_LEHMER_STEP, GCDX_EUCLID_STEP,
+    INVMOD_LEHMER_STEP, INVMOD_EUCLID_STEP,
+    // log.rs
+    LOG_DECREMENT, LOG_OVERFLOW_DECREMENT, LOG_INCREMENT,
+    // root.rs
+    ROOT_FIXPOINT, ROOT_STOP_INCREASE, ROOT_CAPPED_INCREASE, ROOT_DECREASE,
+}
+
+macro_rules! loops {
+    ($($name:ident),* $(,)?) => {
+        loops!(@step 0usize; $($name,)*);
+        /// Names of all counted loops, indexed by loop id.
+        pub const LOOP_NAMES: &[&str] = &[$(stringify!($name)),*];
+    };
+    (@step $idx:expr; $head:ident, $($tail:ident,)*) => {
+        pub const $head: usize = $idx;
+        loops!(@step $idx + 1usize; $($tail,)*);
+    };
+    (@step $idx:expr;) => {
+        /// Number of counted loops.
+        pub const N_LOOPS: usize = $idx;
+    };
+}
+
+loops! {
+    LOOP_GCD, LOOP_GCDX, LOOP_INVMOD, LOOP_LEHMER_U64, LOOP_LEHMER_PREFIX,
+    LOOP_ROOT, LOOP_LOG_DOWN, LOOP_LOG_UP,
+}
+
+/// A loop that runs more often than this within one monitored call is
+/// reported (by panicking with a recognisable message) as not terminating.
+pub const LOOP_CAP: u64 = 1_000_000;
+
+/// Prefix of the panic message raised by [`tick`].
+pub const LOOP_CAP_MESSAGE: &str = "recmo_uint_verif: loop cap exceeded in ";
+
+#[cfg(feature = "std")]
+mod imp {
+    use super::{LOOP_CAP, LOOP_CAP_MESSAGE, LOOP_NAMES, N, N_LOOPS};
+    use core::cell::Cell;
+
+    std::thread_local! {
+        static HITS: [Cell<u64>; N] = [const { Cell::new(0) }; N];
+        static TICKS: [Cell<u64>; N_LOOPS] = [const { Cell::new(0) }; N_LOOPS];
+        static TICKS_MAX: [Cell<u64>; N_LOOPS] = [const { Cell::new(0) }; N_LOOPS];
+        static TABLE_ROWS: [Cell<u64>; 256] = [const { Cell::new(0) }; 256];
+    }
+
+    #[inline]
+    pub fn hit(probe: usize) {
+        HITS.with(|h| h[probe].set(h[probe].get().wrapping_add(1)));
+    }
+
+    #[inline]
+    pub fn table_row(row: usize) {
+        TABLE_ROWS.with(|h| {
+            if let Some(c) = h.get(row) {
+                c.set(c.get().wrapping_add(1));
+            }
+        });
+    }
+
+    #[inline]
+    #[track_caller]
+    pub fn tick(id: usize) {
+        let n = TICKS.with(|t| {
+            let n = t[id].get() + 1;
+            t[id].set(n);
+            n
+        });
+        TICKS_MAX.with(|t| {
+            if n > t[id].get() {
+                t[id].set(n);
+            }
+        });
+        if n > LOOP_CAP {
+            reset_ticks();
+            panic!("{}{}", LOOP_CAP_MESSAGE, LOOP_NAMES[id]);
+        }
+    }
+
+    /// Start a new monitored call: per-call loop counters go back to zero.
+    #[inline]
+    pub fn reset_ticks() {
+        TICKS.with(|t| {
+            for c in t {
+                c.set(0);
+            }
+        });
+    }
+
+    #[must_use]
+    pub fn snapshot() -> [u64; N] {
+        HITS.with(|h| core::array::from_fn(|i| h[i].get()))
+    }
+
+    #[must_use]
+    pub fn ticks_max() -> [u64; N_LOOPS] {
+        TICKS_MAX.with(|h| core::array::from_fn(|i| h[i].get()))
+    }
+
+    #[must_use]
+    pub fn table_rows() -> [u64; 256] {
+        TABLE_ROWS.with(|h| core::array::from_fn(|i| h[i].get()))
+    }
+}
+
+#[cfg(not(feature = "std"))]
+mod imp {
+    use super::{N, N_LOOPS};
+    #[inline(always)]
+    pub fn hit(_: usize) {}
+    #[inline(always)]
+    pub fn table_row(_: usize) {}
+    #[inline(always)]
+    pub fn tick(_: usize) {}
+    #[inline(always)]
+    pub fn reset_ticks() {}
+    #[must_use]
+    pub fn snapshot() -> [u64; N] {
+        [0; N]
+    }
+    #[must_use]
+    pub fn ticks_max() -> [u64; N_LOOPS] {
+        [0; N_LOOPS]
+    }
+    #[must_use]
+    pub fn table_rows() -> [u64; 256] {
+        [0; 256]
+    }
+}
+
+pub use imp::{hit, reset_ticks, snapshot, table_row, table_rows, tick, ticks_max};
